@@ -36,6 +36,127 @@ ENCODERS = ('encode_to_vec',      # msg.encode_to_vec()
 DECODERS = ('decode',)            # T::decode(bytes)
 
 
+# ------------------------------------------------------------------------------- combinators as matches
+# `x.and_then(f)` ≡ `match x { Ok(v) => f(v), Err(e) => Err(e) }` etc.: a call of an Option/Result combinator
+# whose argument is a closure (or a fn item such as a tuple-struct constructor) is rewritten, in a private copy
+# of the facts, as the explicit match with the closure's body spliced in (same machinery as sa.normalize uses
+# for iterator adaptors).  Code that moved into such a closure is then seen where a `?` / `match` would have it.
+#   (receiver family, item): (arm when Ok/Some, arm when Err/None)
+#   arm = ('apply', wrap)   result = wrap(f(payload))         ('apply0', wrap)  result = wrap(f())
+#         ('pass', wrap)    result = wrap(payload)            ('unit', wrap)    result = wrap      ; wrap None = bare value
+COMBINATORS = {
+    ('Result', 'and_then'):       (('apply', None), ('pass', 'Err')),      # match x { Ok(v) => f(v), Err(e) => Err(e) }
+    ('Result', 'map'):            (('apply', 'Ok'), ('pass', 'Err')),      # match x { Ok(v) => Ok(f(v)), Err(e) => Err(e) }
+    ('Result', 'map_err'):        (('pass', 'Ok'), ('apply', 'Err')),      # match x { Ok(v) => Ok(v), Err(e) => Err(f(e)) }
+    ('Result', 'or_else'):        (('pass', 'Ok'), ('apply', None)),       # match x { Ok(v) => Ok(v), Err(e) => f(e) }
+    ('Result', 'unwrap_or_else'): (('pass', None), ('apply', None)),       # match x { Ok(v) => v, Err(e) => f(e) }
+    ('Option', 'and_then'):       (('apply', None), ('unit', 'None')),     # match x { Some(v) => f(v), None => None }
+    ('Option', 'map'):            (('apply', 'Some'), ('unit', 'None')),   # match x { Some(v) => Some(f(v)), None => None }
+    ('Option', 'ok_or_else'):     (('pass', 'Ok'), ('apply0', 'Err')),     # match x { Some(v) => Ok(v), None => Err(f()) }
+    ('Option', 'or_else'):        (('pass', 'Some'), ('apply0', None)),    # match x { Some(v) => Some(v), None => f() }
+    ('Option', 'unwrap_or_else'): (('pass', None), ('apply0', None)),      # match x { Some(v) => v, None => f() }
+}
+BOOL_COMBINATORS = {'then_some': 'value',     # c.then_some(v) ≡ if c { Some(v) } else { None }
+                    'then': 'closure'}        # c.then(|| v)   ≡ if c { Some(f()) } else { None }
+CTOR = {'Ok': 'std::result::Result::Ok', 'Err': 'std::result::Result::Err', 'Some': 'std::option::Option::Some', 'None': 'std::option::Option::None'}
+SCOPE = re.compile(r'^<?artifact::')       # bodies of the artifact module (the anchors of this property)
+
+
+def _payload(local, variant):
+    return {'k': 'move', 'pl': {'l': local, 'p': [{'dc': variant}, {'f': '0', 'of': CTOR[variant]}]}}
+
+
+def _desugar_body(F, N, d):
+    """the body dict `d` with every combinator call of table COMBINATORS turned into a match; None if nothing to do"""
+    from .. import normalize as NZ
+    rw = NZ.Rewriter(d); rw.promoted_of = N._promoted_of
+    bi = 0; done = 0
+    while bi < len(rw.blocks) and done < 60:
+        blk = rw.blocks[bi]; t = blk['term']; bi += 1
+        if blk['cleanup'] or t['k'] != 'call' or t.get('synthetic') or t['t'] < 0 or len(t['args']) != 2: continue
+        ri = t.get('ri') or {}
+        if (ri.get('self') or '') == 'bool' and ri.get('item') in BOOL_COMBINATORS and not ri.get('trait') and t['args'][0]['k'] in ('copy', 'move'):
+            cond, v = t['args']; span = t.get('span'); line = (span or {}).get('lo', 0); dst = t['dst']; after = t['t']
+            ci = N._closure_of(rw, v) if (BOOL_COMBINATORS[ri['item']] == 'closure' and v['k'] in ('copy', 'move')) else None
+            if BOOL_COMBINATORS[ri['item']] == 'closure' and (ci is None or ci[0]['argc'] != 1): continue
+            c = rw.new_local('bool'); yes = rw.new_block(); no = rw.new_block()
+            blk['st'].append(NZ._use(c, cond, line))
+            blk['term'] = {'k': 'switch', 'd': NZ._mv(c), 'ts': [[0, no]], 'else': yes}
+            rw.blocks[no]['st'].append(NZ._agg(dst, CTOR['None'], [], line=line)); rw.goto(no, after)
+            if ci is None:
+                rw.blocks[yes]['st'].append(NZ._agg(dst, CTOR['Some'], [v], line=line)); rw.goto(yes, after)
+            else:
+                r = rw.new_local(ci[0]['locals'][0]); cont = rw.new_block()
+                rw.blocks[cont]['st'].append(NZ._agg(dst, CTOR['Some'], [NZ._mv(r)], line=line)); rw.goto(cont, after)
+                rw.goto(yes, rw.splice(ci[0], [NZ._const('()', 'env')], NZ._pl(r), cont, span, captures=ci[1]))
+            rw.changed = True; done += 1; continue
+        fam = ty_family(ri.get('self') or '')
+        key = ({'Some': 'Option', 'Ok': 'Result'}.get(fam[0]) if fam else None, ri.get('item'))
+        if key not in COMBINATORS or ri.get('trait'): continue
+        recv, f = t['args']
+        if recv['k'] not in ('copy', 'move'): continue
+        ci = N._closure_of(rw, f) if f['k'] in ('copy', 'move') else None
+        fnitem = f if (f['k'] == 'const' and (f.get('fn') or f.get('fnp'))) else None
+        if ci is None and fnitem is None: continue
+        okv, errv = ('Ok', 'Err') if key[0] == 'Result' else ('Some', 'None')
+        arms = COMBINATORS[key]
+        need = [a[0] for a in arms if a[0].startswith('apply')]
+        if ci is not None and any(ci[0]['argc'] != (2 if n == 'apply' else 1) for n in need): continue
+        span = t.get('span'); line = (span or {}).get('lo', 0); dst = t['dst']; after = t['t']
+        x = rw.new_local(rw.locals[recv['pl']['l']] if not recv['pl']['p'] else '?')
+        dl = rw.new_local('isize')
+        blocks = [rw.new_block(), rw.new_block()]; un = rw.new_block()
+        blk['st'].append(NZ._use(x, recv, line)); blk['st'].append(NZ._discr(dl, NZ._pl(x), line))
+        # discriminants: Ok = 0 / Err = 1 ; None = 0 / Some = 1
+        order = [[0, blocks[0]], [1, blocks[1]]] if key[0] == 'Result' else [[1, blocks[0]], [0, blocks[1]]]
+        blk['term'] = {'k': 'switch', 'd': NZ._mv(dl), 'ts': order, 'else': un}
+        for (how, wrap), variant, b0 in zip(arms, (okv, errv), blocks):
+            if how == 'unit':
+                rw.blocks[b0]['st'].append(NZ._agg(dst, CTOR[wrap], [], line=line)); rw.goto(b0, after); continue
+            if how == 'pass':
+                val = _payload(x, variant)
+                rw.blocks[b0]['st'].append(NZ._agg(dst, CTOR[wrap], [val], line=line) if wrap else NZ._use(dst, val, line)); rw.goto(b0, after); continue
+            args = [_payload(x, variant)] if how == 'apply' else []
+            if wrap is None and not dst['p']: r = None; out = dst; cont = after
+            else:
+                r = rw.new_local(ci[0]['locals'][0] if ci else '?'); out = NZ._pl(r); cont = rw.new_block()
+                rw.blocks[cont]['st'].append(NZ._agg(dst, CTOR[wrap], [NZ._mv(r)], line=line) if wrap else NZ._use(dst, NZ._mv(r), line)); rw.goto(cont, after)
+            if ci is not None:
+                e = rw.splice(ci[0], [NZ._const('()', 'env')] + args, out, cont, span, captures=ci[1])
+                rw.goto(b0, e)
+            else:
+                nm = fnitem.get('fn') or fnitem['fnp']; path = fnitem.get('fnp') or nm
+                rw.blocks[b0]['term'] = NZ.mk_call(nm, path, None, None, path.split('::')[-1], args, out, cont, span)
+        rw.changed = True; done += 1
+    return rw.d if done else None
+
+
+def desugared(F):
+    """(facts, spliced closures) with the Option/Result combinators of the artifact module written as matches"""
+    got = getattr(F, '_c20_desugared', None)
+    if got is not None: return got
+    from .. import normalize as NZ
+    from ..facts import Facts
+    N = NZ.Normalizer(F, None, loops=False)
+    dicts = []; changed = 0
+    for name, b in F.bodies.items():
+        d2 = None
+        if b.kind == 'fn' and SCOPE.search(name):
+            try: d2 = _desugar_body(F, N, b.d)
+            except Exception: d2 = None            # leave the body as it is: the rules then see the combinator call (fail towards an alarm)
+        if d2 is not None: changed += 1
+        dicts.append(d2 if d2 is not None else b.d)
+    if not changed:
+        F._c20_desugared = F; return F
+    F2 = Facts(F.path, parts=(F.header, dicts, F.adts, F.impls, F.consts))
+    F2.raw = getattr(F, 'raw', F); F2.norm_stats = getattr(F, 'norm_stats', None)
+    gone = set(getattr(F, 'inlined_closures', ())) | set(N.inlined_closures)
+    F2.inlined_closures = gone
+    for k in list(F2._closures): F2._closures[k] = [b for b in F2._closures[k] if b.name not in gone]
+    F._c20_desugared = F2
+    return F2
+
+
 # ------------------------------------------------------------------------------- outcomes
 OKV = ('Ok', 'Some', 'Continue'); ERRV = ('Err', 'None', 'Break')
 VIDX = {'None': 0, 'Some': 1, 'Ok': 0, 'Err': 1, 'Continue': 0, 'Break': 1}
@@ -329,12 +450,132 @@ def ok_payloads(body):
     return [st['rv']['ops'][0] for bi, k, st in body.ret_assignments() if k == 'ok' and st.get('rv', {}).get('ops')]
 
 
+PUSHES = ('push', 'push_back')      # Vec::push, VecDeque::push_back; collect() is `Vec::new` + `push` in normal form
+ITER_OF = re.compile(r'::(into_iter|iter|iter_mut)(::<.*>)?$')     # the iterator of a collection yields its elements
+
+
+def iter_root(body, lo):
+    """local holding the collection / call result the loop `lo` iterates over"""
+    a = lo[0].args[0]
+    if a['k'] not in ('copy', 'move'): return None
+    l, proj = origin(body, a['pl'])
+    for _ in range(4):
+        defs = [d for d in body.defs_of(l) if not (d[0] == 'stmt' and d[2]['dst']['p'])]
+        if len(defs) == 1 and defs[0][0] == 'call' and ITER_OF.search(T.strip_generics_tail(defs[0][2]['r'] or defs[0][2]['f'])) and defs[0][2]['args'] and defs[0][2]['args'][0]['k'] in ('copy', 'move'):
+            l, proj = origin(body, defs[0][2]['args'][0]['pl']); continue
+        break
+    return l, proj
+
+
+def innermost_loop(body, bb):
+    best = None
+    for lo in T.for_loops(body):
+        if bb in lo[4] and (best is None or len(lo[4]) < len(best[4])): best = lo
+    return best
+
+
+def stages(ctx, body, d, depth=4):
+    """[(loop, sink call)] from the loop over OciArtifact::get_layers() to the loop in which `d` is executed.  One
+    entry when d stands in the loop over the layers; after a loop fission (`filter(..).collect()` then a second loop,
+    two `for`s with a staging Vec) the earlier stages end in the push that fills the Vec the next one iterates."""
+    lo = innermost_loop(body, d.bb)
+    if lo is None: return None
+    chain = [(lo, d)]
+    for _ in range(depth):
+        r = iter_root(body, chain[0][0])
+        if r is None: return None
+        l, proj = r
+        defs = [x for x in body.defs_of(l) if not (x[0] == 'stmt' and x[2]['dst']['p'])]
+        if len(defs) == 1 and defs[0][0] == 'call':
+            nm = defs[0][2]['r'] or defs[0][2]['f']; item = (defs[0][2].get('ri') or {}).get('item')
+            if item == 'get_layers' and 'OciArtifact' in nm and [p.get('dc') for p in proj if isinstance(p, dict) and 'dc' in p] in (['Ok'], []):
+                return chain
+            if item in ('new', 'with_capacity') and re.search(r'\b(Vec|VecDeque)::<', nm) and not proj:
+                fills = [c for c in body.calls if c.item in PUSHES and c.args and c.args[0]['k'] in ('copy', 'move') and origin(body, c.args[0]['pl']) == (l, [])]
+                los = [innermost_loop(body, c.bb) for c in fills]
+                # every fill is a push in one and the same loop (several pushes on different branches are one stage each: not supported, fail closed)
+                if len(fills) == 1 and los[0] is not None and los[0] is not chain[0][0] and all(los[0] is not x[0] for x in chain):
+                    chain.insert(0, (los[0], fills[0])); continue
+        return None
+    return None
+
+
+def carries_item(body, operand, item):
+    """the operand is the loop item itself (`(next() as Some).0`) or the tuple of its components in the same order"""
+    if operand['k'] not in ('copy', 'move'): return False
+    l, proj = origin(body, operand['pl'])
+    def is_item(l, proj, extra):
+        keys = [(p.get('dc') or p.get('f')) for p in proj if isinstance(p, dict)]
+        return l == item and keys == ['Some', '0'] + extra
+    if is_item(l, proj, []): return True
+    defs = [x for x in body.defs_of(l) if not (x[0] == 'stmt' and x[2]['dst']['p'])]
+    if proj or len(defs) != 1 or defs[0][0] != 'stmt' or defs[0][2]['rv']['k'] != 'agg' or defs[0][2]['rv']['adt'] != 'tuple': return False
+    ops = defs[0][2]['rv']['ops']
+    return bool(ops) and all(o['k'] in ('copy', 'move') and is_item(*origin(body, o['pl']), [str(i)]) for i, o in enumerate(ops))
+
+
+# the digest of a descriptor: desc.digest() | Digest::from_descriptor(&desc) | Digest::new(desc.digest())
+DIGEST_OF = r'Descriptor::digest$|Digest::(from_descriptor|new)$'
+
+
+def returned_payloads(body, local=0, depth=6):
+    """operands holding the Ok/Some payload of the value returned through `local`: `Ok(x)`; `opt.with_context(..)` /
+    `ok_or(..)` / `res.map_err(..)` returned directly (table KEEPS_OKNESS: the payload of the receiver); copies.
+    None if some definition is not understood."""
+    out = []
+    for kind, bi, d in body.defs_of(local):
+        if kind == 'stmt':
+            if d['dst']['p']: return None
+            rv = d['rv']
+            if rv['k'] == 'agg':
+                m = ADT_VARIANT.search(rv['adt'])
+                if m is None: return None
+                if m.group(1) in OKV and rv['ops']: out.append(rv['ops'][0])
+            elif rv['k'] == 'use' and rv['ops'][0]['k'] in ('copy', 'move') and not rv['ops'][0]['pl']['p'] and depth > 0:
+                sub = returned_payloads(body, rv['ops'][0]['pl']['l'], depth - 1)
+                if sub is None: return None
+                out += sub
+            else: return None
+        else:
+            c = [x for x in body.calls if x.bb == bi][0]
+            if c.item == 'from_residual': continue
+            a0 = c.args[0] if c.args else None
+            fam = ty_family(body.locals[a0['pl']['l']]) if (a0 and a0['k'] in ('copy', 'move') and not a0['pl']['p']) else None
+            if fam and (_recv_family(c), c.item) in KEEPS_OKNESS and c.item not in ('map', 'inspect'):
+                out.append({'k': 'move', 'pl': {'l': a0['pl']['l'], 'p': [{'dc': fam[0]}, {'f': '0', 'of': CTOR.get(fam[0], fam[0])}]}})
+            else: return None
+    return out
+
+
+TAKE_AT = ('swap_remove', 'remove')        # Vec::swap_remove(i) / Vec::remove(i): the element at index i, by value
+
+
+def taken_by_position(body, operand, lo):
+    """operand = coll.swap_remove(i) / coll.remove(i) where coll is what the loop `lo` iterates over and i is the
+    counter of that loop (0 before it, +1 per iteration: `position` in normal form) as delivered by `Some(counter)`"""
+    if operand['k'] not in ('copy', 'move') or operand['pl']['p']: return False
+    defs = body.defs_of(operand['pl']['l'])
+    if len(defs) != 1 or defs[0][0] != 'call': return False
+    c = [x for x in body.calls if x.bb == defs[0][1]][0]
+    if c.item not in TAKE_AT or len(c.args) != 2 or any(a['k'] not in ('copy', 'move') for a in c.args): return False
+    root = iter_root(body, lo)
+    if root is None or origin(body, c.args[0]['pl'])[0] != root[0]: return False
+    cnt, proj = origin(body, c.args[1]['pl'])
+    cdefs = body.defs_of(cnt)
+    def is_step(d):
+        rv = d[2]['rv'] if d[0] == 'stmt' else None
+        if rv is None or d[2]['dst']['p']: return False
+        if rv['k'] == 'use' and rv['ops'][0]['k'] == 'const': return T.f64_const(rv['ops'][0]['v']) == 0.0 and d[1] not in lo[4]
+        return rv['k'] == 'bin' and rv['op'].startswith('Add') and d[1] in lo[4] and rv['ops'][0]['k'] in ('copy', 'move') and rv['ops'][0]['pl']['l'] == cnt and rv['ops'][1]['k'] == 'const' and T.f64_const(rv['ops'][1]['v']) == 1.0
+    return not proj and len(cdefs) == 2 and all(is_step(d) for d in cdefs)
+
+
 def over_all_layers(ctx, body, lo):
     """the loop iterates over the result of `OciArtifact::get_layers` (all (descriptor, blob) pairs in manifest order)"""
     return any(x.item == 'get_layers' and 'OciArtifact' in x.name for x in ctx.S.slice_operand(body, lo[0].args[0]).call_objs)
 
 
-def eq_tests(body, needle='MediaType'):
+def eq_tests(body, needle=''):
     return [c for c in body.calls if c.item in ('eq', 'ne') and 'PartialEq' in (c.trait or '') and needle in c.name]
 
 
@@ -395,37 +636,43 @@ def kinds_rules(ctx):
         if g is None: continue
         headers = set(g.loops())
         dec = [c for c in g.calls if c.item in DECODERS and (c.trait or '').endswith('prost::Message') and message_type_is(g, c, msg, value_local=c.dst['l'])]
-        # the loop over all layers of the archive in which the message is decoded
-        site = None
+        # the loop over all layers of the archive in which the message is decoded -- or, after a loop fission, the
+        # chain of loops leading there: [(loop over get_layers(), push into a staging Vec), .., (loop over that Vec, decode)]
+        chain = None
         for d in dec:
-            for lo in T.for_loops(g):
-                if d.bb in lo[4] and over_all_layers(ctx, g, lo):
-                    if site is None or len(lo[4]) < len(site[1][4]): site = (d, lo)
+            chain = chain or stages(ctx, g, d)
         okg = False
-        if site:
-            d, lo = site; nxt, header, some_bb = lo[0], lo[1], lo[2]
-            for c in eq_tests(g):
-                if c.bb not in lo[4]: continue
-                sides = [(T.expr(g, a), a) for a in c.args]
-                mts = [m for e, a in sides for m in media_fns(g, a)]
-                desc = any(T.expr_has_call(e, 'media_type') and nxt in ctx.S.slice_operand(g, a).call_objs for e, a in sides)
-                if mts != [mt] or not desc: continue
-                for gd in T.guards_from_call(g, c):
-                    # layers of other types are skipped, matching ones decoded; no way to the decoder around the test
-                    yes, no = (gd.true_bb, gd.false_bb) if c.item == 'eq' else (gd.false_bb, gd.true_bb)
-                    yr = g.reach([yes], stop=headers); nr = g.reach([no], stop=headers)
-                    around = g.reach([some_bb], stop=headers | {gd.switch_bb})
-                    if d.bb in yr and d.bb not in nr and d.bb not in around: okg = True
-        ctx.check(okg, R + '/%s/filter' % fn, 'T-SIBLING', g.name, 'does not decode exactly the layers of media type %s as %s' % (mt, msg), g.site())
+        if chain:
+            for lo, sink in chain:
+                nxt, header, some_bb = lo[0], lo[1], lo[2]
+                for c in eq_tests(g):
+                    if c.bb not in lo[4]: continue
+                    sides = [(T.expr(g, a), a) for a in c.args]
+                    mts = [m for e, a in sides for m in media_fns(g, a)]
+                    desc = any(T.expr_has_call(e, 'media_type') and nxt in ctx.S.slice_operand(g, a).call_objs for e, a in sides)
+                    if mts != [mt] or not desc: continue
+                    for gd in T.guards_from_call(g, c):
+                        # layers of other types are skipped, matching ones go on (to the decoder / the next stage); no way around the test
+                        yes, no = (gd.true_bb, gd.false_bb) if c.item == 'eq' else (gd.false_bb, gd.true_bb)
+                        yr = g.reach([yes], stop=headers); nr = g.reach([no], stop=headers)
+                        around = g.reach([some_bb], stop=headers | {gd.switch_bb})
+                        if sink.bb in yr and sink.bb not in nr and sink.bb not in around: okg = (lo, yes)
+        ctx.check(bool(okg), R + '/%s/filter' % fn, 'T-SIBLING', g.name, 'does not decode exactly the layers of media type %s as %s' % (mt, msg), g.site())
         propagates(ctx, R + '/%s/decode-error' % fn, g, dec, 'decode')
-        if not site:
+        if not chain:
             # fail closed: the per-layer conditions cannot be placed
             ctx.bad(R + '/%s/every-match-kept' % fn, 'T-LOOPMUST', g.name, 'no loop over OciArtifact::get_layers() in which a layer is decoded as %s' % msg, g.site())
             ctx.bad(R + '/%s/same-layer' % fn, 'T-CARRY', g.name, 'no loop over OciArtifact::get_layers() in which a layer is decoded as %s' % msg, g.site())
         else:
-            d, lo = site; item = lo[0].dst['l']
-            pushes = [c for c in g.calls if c.item in ('push', 'push_back') and c.bb in lo[4] and d in ctx.S.slice_operand(g, c.args[1]).call_objs]
-            ctx.check(bool(pushes) and T.must_pass(g, d.bb, {lo[1]}, {c.bb for c in pushes}), R + '/%s/every-match-kept' % fn, 'T-LOOPMUST', g.name, 'a decoded layer can be dropped', g.site())
+            lo, d = chain[-1]; item = lo[0].dst['l']
+            pushes = [c for c in g.calls if c.item in PUSHES and c.bb in lo[4] and d in ctx.S.slice_operand(g, c.args[1]).call_objs]
+            # from the test's yes side (the start of the iteration in a stage without the test) every path back to the
+            # loop header goes through the stage's sink, and from the decoder through the final push
+            kept = bool(pushes) and T.must_pass(g, d.bb, {lo[1]}, {c.bb for c in pushes})
+            for lo_i, sink in chain:
+                start = okg[1] if (okg and okg[0] is lo_i) else lo_i[2]
+                kept = kept and T.must_pass(g, start, {lo_i[1]}, {sink.bb})
+            ctx.check(kept, R + '/%s/every-match-kept' % fn, 'T-LOOPMUST', g.name, 'a matching / decoded layer can be dropped', g.site())
             # descriptor and blob of one entry are the two halves of the same layer (not looked up again by digest:
             # two layers may have the same digest and different annotations)
             ok_same = bool(pushes) and d.args[0]['k'] in ('copy', 'move') and origin(g, d.args[0]['pl'])[0] == item
@@ -433,17 +680,27 @@ def kinds_rules(ctx):
                 a = c.args[1]
                 first = {'l': a['pl']['l'], 'p': list(a['pl']['p']) + [{'f': '0', 'of': 'tuple'}]} if a['k'] in ('copy', 'move') else None      # the Descriptor of the pushed (Descriptor, message)
                 ok_same = ok_same and first is not None and origin(g, first)[0] == item
+            # a staging Vec carries the layers themselves: the pushed value is the loop item, or (item.0, item.1) rebuilt
+            for lo_i, sink in chain[:-1]:
+                ok_same = ok_same and carries_item(g, sink.args[1], lo_i[0].dst['l'])
             ctx.check(ok_same, R + '/%s/same-layer' % fn, 'T-CARRY', g.name, 'the descriptor and the decoded blob of an entry are not taken from the same layer of the iteration', g.site())
 
 
 # ------------------------------------------------------------------------------- media types, manifest, digest
-def string_literals(body):
+def const_text(ctx, o):
+    """text of a constant operand; a named constant (`const KEY: &str = ".."`, associated consts) is its value"""
+    v = o['v']
+    named = ctx.F.consts.get(v) or ctx.F.consts.get(v[6:] if v.startswith('const ') else v)
+    return named[1] if named else v
+
+
+def string_literals(ctx, body):
     out = []
     for c in body.calls:
-        out += [a['v'] for a in c.args if a['k'] == 'const' and a['v'].startswith('"')]
+        out += [const_text(ctx, a) for a in c.args if a['k'] == 'const']
     for bi, st in body.stmts():
-        out += [o['v'] for o in st['rv'].get('ops', []) if o['k'] == 'const' and o['v'].startswith('"')]
-    return [v.strip('"') for v in out]
+        out += [const_text(ctx, o) for o in st['rv'].get('ops', []) if o['k'] == 'const']
+    return [v.strip('"') for v in out if v.startswith('"')]
 
 
 def types_rules(ctx, repo):
@@ -454,7 +711,7 @@ def types_rules(ctx, repo):
         if m and b.kind == 'fn':
             ctx.fn(b)
             # "lit".to_string() ≡ String::from("lit") ≡ "lit".to_owned() ≡ "lit".into(): the one string literal of the function
-            lits = sorted(set(string_literals(b)))
+            lits = sorted(set(string_literals(ctx, b)))
             vals[m.group(1)] = lits[0] if len(lits) == 1 else None
     want = {'v1_artifact': 'application/org.ommx.v1.artifact', 'v1_config': 'application/org.ommx.v1.config+json', 'v1_instance': 'application/org.ommx.v1.instance',
             'v1_parametric_instance': 'application/org.ommx.v1.parametric-instance', 'v1_solution': 'application/org.ommx.v1.solution', 'v1_sample_set': 'application/org.ommx.v1.sample-set'}
@@ -471,14 +728,16 @@ def types_rules(ctx, repo):
     except OSError:
         ctx.lost(R + '/documented', 'ARTIFACT.md')
     # every builder constructor passes v1_artifact(); get_manifest checks it
-    ctors = [b for b in ctx.F.bodies.values() if b.kind == 'fn' and re.search(r'artifact::builder::Builder<', b.hdr.get('self') or '') and any(c.item == 'new' and 'OciArtifactBuilder' in c.name for c in b.calls)]
+    # (combinator closures are spliced by `desugared`; a closure that is still separate is searched too)
+    def creations(b):
+        return [(x, c) for x in [b] + list(ctx.F.closures_of(b)) for c in x.calls if c.item == 'new' and 'OciArtifactBuilder' in c.name]
+    ctors = [b for b in ctx.F.bodies.values() if b.kind == 'fn' and re.search(r'artifact::builder::Builder<', b.hdr.get('self') or '') and creations(b)]
     ctx.check(len(ctors) >= 3, R + '/constructors', 'T-CONST', 'artifact::builder', 'expected >= 3 constructors creating an OciArtifactBuilder, found %d' % len(ctors))
     for b in ctors:
         ctx.fn(b)
-        for c in b.calls:
-            if c.item == 'new' and 'OciArtifactBuilder' in c.name:
-                mts = media_fns(b, c.args[1])
-                ctx.check(mts == ['v1_artifact'], R + '/constructor/' + b.hdr.get('item', '?'), 'T-CONST', b.name, 'artifact type passed to OciArtifactBuilder::new is %s' % mts, b.site(c.bb))
+        for x, c in creations(b):
+            mts = media_fns(x, c.args[1])
+            ctx.check(mts == ['v1_artifact'], R + '/constructor/' + b.hdr.get('item', '?'), 'T-CONST', b.name, 'artifact type passed to OciArtifactBuilder::new is %s' % mts, x.site(c.bb))
     g = ctx.method(R + '/get_manifest/anchor', ART, 'get_manifest')
     if g is not None:
         at = [c for c in g.calls if c.item == 'artifact_type' and 'ImageManifest' in c.name]
@@ -508,13 +767,13 @@ def types_rules(ctx, repo):
         ctx.check(ok, 'C20.digest/unknown-is-error', 'T-ERRFLOW', gl.name, 'an unknown digest does not end in an error', gl.site())
         cmp_ok = False
         headers = set(gl.loops())
-        for c in eq_tests(gl, needle=''):
+        for c in eq_tests(gl):
             lo = [x for x in loops if c.bb in x[4]]
             if not lo: continue
             nxt = lo[0][0]
             sides = [(T.expr(gl, a), a) for a in c.args]
             # <digest of the loop's item> == <the digest argument>
-            item_digest = any(T.expr_has_call(e, 'digest') and nxt in ctx.S.slice_operand(gl, a).call_objs for e, a in sides)
+            item_digest = any(T.expr_has_call(e, name_re=DIGEST_OF) and nxt in ctx.S.slice_operand(gl, a).call_objs for e, a in sides)
             given = any(any(x[0] == 'place' and x[1] == 2 for x in T.expr_walk(e)) for e, a in sides)
             if not (item_digest and given): continue
             for sb, neg in T.bool_flow(gl, c.dst['l']):
@@ -523,15 +782,50 @@ def types_rules(ctx, repo):
                 # a hit is returned, a layer with another digest never is
                 if fl.may_succeed([yes], stop=headers) and not fl.may_succeed([no], stop=headers): cmp_ok = True
         ctx.check(cmp_ok, 'C20.digest/compares-digest', 'T-GUARD', gl.name, 'layers are not selected by comparing their digest with the argument', gl.site())
+        # what is returned is the matching layer itself: descriptor and blob of the item of that loop
+        pay = returned_payloads(gl)
+        strong = bool(loops) and pay is not None and bool(pay) and all(any(carries_item(gl, p, lo[0].dst['l']) for lo in loops) for p in pay)
+        if not strong and loops and pay and all(any(carries_item(gl, p, lo[0].dst['l']) or taken_by_position(gl, p, lo) for lo in loops) for p in pay):
+            # `position(..)` + `layers.swap_remove(i)`: that i is the index of the matching item is not decided (it needs the
+            # counter's arithmetic); decided instead: the element is removed from the iterated collection at the counter of that loop
+            ctx.undecided('C20.digest/returns-hit', 'T-CARRY', gl.site(), 'the layer is taken out of the collection by the index the search returned')
+            ctx.ok('C20.digest/returns-hit/by-position', 'T-CARRY', gl.site())
+        else:
+            ctx.check(strong, 'C20.digest/returns-hit', 'T-CARRY', gl.name, 'the returned (descriptor, blob) is not the layer of the iteration that matched', gl.site())
 
 
 # ------------------------------------------------------------------------------- annotations
-MAP_WRITES = ('insert',            # map.insert(k, v); extend([(k, v)]) and collect are `insert` in normal form; VacantEntry::insert(v)
-              'or_insert',         # map.entry(k).or_insert(v): the entry (receiver) carries the key
-              'or_insert_with',    # map.entry(k).or_insert_with(|| v)
-              'insert_entry',      # map.entry(k).insert_entry(v)
-              'extend')            # map.extend(other_iterable) (not desugared without a closure chain)
 MAP_TYPES = re.compile(r'HashMap|hash_map::(Entry|VacantEntry|OccupiedEntry)|BTreeMap|btree_map::(Entry|VacantEntry|OccupiedEntry)')
+# ways of writing one (key, value) pair into a map: item -> (index of the operand carrying the key, index of the value)
+MAP_WRITES = {'insert': (1, 2),            # map.insert(k, v); extend([(k, v)]) and collect() are `insert` in normal form
+              'or_insert': (0, 1),         # map.entry(k).or_insert(v): the entry (receiver) carries the key
+              'or_insert_with': (0, 1),    # map.entry(k).or_insert_with(|| v)
+              'insert_entry': (0, 1),      # map.entry(k).insert_entry(v)
+              'extend': (1, 1)}            # map.extend(pairs) where it was not desugared: key and value come with the pairs
+ENTRY_INSERT = re.compile(r'hash_map::(Entry|VacantEntry)|btree_map::(Entry|VacantEntry)')      # VacantEntry::insert(v): (0, 1)
+
+
+def stores(ctx, body, is_key, is_val, depth=3):
+    """the function writes a pair (k, v) into a map with is_key(body, operand of k) and is_val(body, operand of v):
+    directly (table MAP_WRITES), or by passing them on to a function of the crate that does (an existing setter such
+    as `set_other(key, value)` reused; positions are followed through the callee's parameters)"""
+    for c in body.calls:
+        if c.item in MAP_WRITES and MAP_TYPES.search(c.name):
+            ki, vi = (0, 1) if (c.item == 'insert' and ENTRY_INSERT.search(c.name)) else MAP_WRITES[c.item]
+            if max(ki, vi) < len(c.args) and is_key(body, c.args[ki]) and is_val(body, c.args[vi]): return True
+        elif depth > 0:
+            cb = ctx.F.bodies.get(c.path) or ctx.F.bodies.get(c.name)
+            if cb is None or cb.kind != 'fn' or cb.argc != len(c.args) or is_derive_body(cb): continue
+            def through(pred, c=c):
+                # the callee's operand derives from a parameter whose argument satisfies the caller's predicate
+                return lambda b2, op: any(1 <= p <= len(c.args) and pred(body, c.args[p - 1]) for p in ctx.S.slice_operand(b2, op).params if p != 1 or not mutlike_self(b2))
+            if stores(ctx, cb, through(is_key), through(is_val), depth - 1): return True
+    return False
+
+
+def mutlike_self(body):
+    """parameter 1 is `&mut self`: every argument of every call on it flows into it in the slices (over-approximation), so it identifies nothing"""
+    return body.argc >= 1 and body.locals[1].startswith('&mut')
 
 
 def annotation_rules(ctx, repo):
@@ -547,9 +841,7 @@ def annotation_rules(ctx, repo):
             ks = []
             def lit(o):
                 if o['k'] != 'const': return
-                v = o['v']
-                named = ctx.F.consts.get(v) or ctx.F.consts.get(v[6:] if v.startswith('const ') else v)       # `const KEY: &str = ".."`
-                if named: v = named[1]
+                v = const_text(ctx, o)                          # `const KEY: &str = ".."`, `Self::KEY`
                 if v.startswith('"org.ommx.'): ks.append(v.strip('"'))
             for c in b.calls:
                 for a in c.args: lit(a)
@@ -569,17 +861,19 @@ def annotation_rules(ctx, repo):
             ctx.check(ok, R + '/%s/%s/same-key' % (ty, gname), 'T-CONST', sb.name, 'setter key %s, getter key %s, expected one key %s%s in both' % (sk, gk, prefix, gname), sb.site())
             if ty in ('InstanceAnnotations', 'SolutionAnnotations') and sk and doc:
                 ctx.check(sk[0] in doc, R + '/%s/%s/documented' % (ty, gname), 'T-CONST', 'ARTIFACT.md', 'annotation key %s is not documented in ARTIFACT.md' % sk[0])
-            # the setter writes (key, given value) into the map; the getter reads through self.get / the map
-            okv = False
-            for c in sb.calls:
-                if c.item in MAP_WRITES and MAP_TYPES.search(c.name):
-                    s = [ctx.S.slice_operand(sb, a) for a in c.args]
-                    if any(2 in x.params for x in s) and any(x.has_const(r'^"org\.ommx\.') or any(k in ctx.F.consts for k in x.consts) for x in s): okv = True
-            ctx.check(okv, R + '/%s/%s/stores-value' % (ty, gname), 'T-CARRY', sb.name, 'setter does not insert the given value', sb.site())
+            # the setter writes (its key, the given value) into the map; the getter reads through self.get / the map
+            want = prefix + gname
+            def is_key(body, op):
+                x = ctx.S.slice_operand(body, op) if op['k'] != 'const' else None
+                texts = [const_text(ctx, op)] if x is None else [const_text(ctx, {'v': v}) for v in x.consts]
+                return any(t.strip('"') == want for t in texts)
+            def is_val(body, op):
+                return op['k'] != 'const' and 2 in ctx.S.slice_operand(body, op).params
+            ctx.check(stores(ctx, sb, is_key, is_val), R + '/%s/%s/stores-value' % (ty, gname), 'T-CARRY', sb.name, 'setter does not insert the given value under its key', sb.site())
             if gname == 'authors':
                 def const_of(body, a):
                     e = T.strip_wrappers(T.expr(body, a))
-                    return e[1].strip('"').strip("'") if e[0] == 'const' else None
+                    return const_text(ctx, {'v': e[1]}).strip('"').strip("'") if e[0] == 'const' else None
                 js = sorted({const_of(sb, c.args[1]) for c in sb.calls if c.item == 'join' and len(c.args) > 1} - {None})
                 sp = sorted({const_of(gb, c.args[1]) for c in gb.calls if c.item == 'split' and len(c.args) > 1} - {None})
                 okj = len(js) == 1 and js == sp
@@ -594,6 +888,14 @@ def annotation_rules(ctx, repo):
 
 def check(ctx):
     repo = getattr(ctx, 'repo', '/repo')
-    kinds_rules(ctx); types_rules(ctx, repo); annotation_rules(ctx, repo)
+    F0, S0 = ctx.F, ctx.S
+    try:
+        F2 = desugared(F0)
+        if F2 is not F0:
+            from ..dataflow import Slicer
+            ctx.F, ctx.S = F2, Slicer(F2, depth=S0.depth)
+        kinds_rules(ctx); types_rules(ctx, repo); annotation_rules(ctx, repo)
+    finally:
+        ctx.F, ctx.S = F0, S0
     # floors = rule instances decided on the pinned tree
-    ctx.floor('C20.kinds', 44); ctx.floor('C20.types', 18); ctx.floor('C20.digest', 2); ctx.floor('C20.annotations', 66)
+    ctx.floor('C20.kinds', 44); ctx.floor('C20.types', 18); ctx.floor('C20.digest', 3); ctx.floor('C20.annotations', 66)
